@@ -190,6 +190,11 @@ def build(p):
         if p['vseed'] % 2 == 0:
             Rs = [1] + [1 + (p['vseed'] >> (3 * k)) % 4 for k in range(d - 1)] + [1]     # non-uniform warm start
         start = TT(gen.rand_cores(N, Rs, 'f64', g))
+        sk = p['vseed'] % 7
+        if sk == 0:
+            start = torchtt.zeros(N)                                   # an all-zero start
+        elif sk == 1:
+            start = start + 0.0 * TT(gen.rand_cores(N, [1] + [2] * (d - 1) + [1], 'f64', g))   # zero-padded ranks (as TT addition produces)
     if api in ('dmrg_cross', 'dmrg_cross_start'):
         if p['target'] == 'tt':
             exact = gen.dense_from_cores(gen.rand_cores(N, p['R'], 'f64', g))
